@@ -523,6 +523,25 @@ def shard_views_case(rng, sess: Session):
             sess.violation("shard-views-do-not-partition-the-current-index", case, {"views": got[:8], "index": [e.get("id") for e in idx._eps][:8]})
             return
         q = np.asarray(enc.encode([rng.choice(["hello world", "cat moon", "river tree"])])[0], dtype=np.float32)
+        # per shard, collect_shard_hits is the shard's own tier searches, each with the full K (a later tier is not asked
+        # for fewer because an earlier one already produced hits: the cross-shard merge de-duplicates across tiers)
+        K_ = rng.choice([1, 2, 4, 6])
+        tiers_ = rng.choice([["cluster_semantic", "archive"], ["archive", "cluster_semantic"], ["archive"], ["cluster_semantic"]])
+        top_m = rng.choice([1, 2, 3])
+        for v in views:
+            got_t = collect_shard_hits(v, tiers_, None, q, K_, iso_from_ms(NOW_MS), -1.0, top_m)
+            for t_ in tiers_:
+                hints = {"sim_threshold": -1.0, "now": iso_from_ms(NOW_MS)}
+                if t_ == "cluster_semantic":
+                    hints["clusters_top_m"] = top_m
+                try:
+                    want_t = [str(h.id) for h in v.search_tiered(owner=None, q_vec=q, k=K_, tier=t_, hints=hints)]
+                except Exception:
+                    want_t = []
+                sess.count("shard_tier_collections_checked")
+                if [h["id"] for h in got_t.get(t_, [])] != want_t:
+                    sess.violation("collect_shard_hits-differs-from-the-shards-own-tier-search", case, {"tier": t_, "k": K_, "got": [h["id"] for h in got_t.get(t_, [])], "search": want_t})
+                    return
         whole = collect_shard_hits(idx, ["archive"], None, q, 4, iso_from_ms(NOW_MS), -1.0, 3)
         parts = [collect_shard_hits(v, ["archive"], None, q, 4, iso_from_ms(NOW_MS), -1.0, 3) for v in views]
         a, _ = merge_tier_hits_across_shards_dict([whole], ["archive"], 4)
